@@ -346,9 +346,7 @@ pub fn run(_params: &Params) {
       if ctx::choose(2) == 0 {
         enc.add_sd_alg_property();
       }
-      if ctx::choose(3) == 0 {
-        let _ = enc.add_decoys("/vc/credentialSubject", 1 + ctx::choose(2));
-      }
+      // (decoy digests are not used: sd-jwt-payload draws them from the OS RNG, for which there is no seam)
       let Ok(encoded) = enc.try_to_string() else { continue };
       let opts = JwsSignatureOptions::default().typ("sd-jwt".to_owned());
       if let Ok(jwt) = sign_raw(&issuer, "sign", encoded.as_bytes(), &opts) {
